@@ -761,7 +761,7 @@ fn main() {
     corr_auc(&mut out, &[1., 0., 1., 0., 1.], &[0.5, 0.5, 0.5, 0.2, 0.9]);
 
     // ---- correspondence ----
-    let nc = if th { 120 } else { 24 };
+    let nc = if th { 150 } else { 36 };
     for i in 0..nc {
         // classification
         let n = if i < 3 { i } else { rng.usize_in(1, 40) };
@@ -820,6 +820,40 @@ fn main() {
     // empty vectors
     corr_auc(&mut out, &[], &[]);
     corr_cluster(&mut out, &[], &[]);
+    // a few long vectors (the model is cheap to evaluate) and the degenerate cluster layouts:
+    // exactly independent (mutual information clamps to 0 -> the v-measure guard), identical
+    for _ in 0..(if th { 12 } else { 4 }) {
+        let n = rng.usize_in(65, 200);
+        let (yt, yp, _) = gen_binary_pair(&mut rng, n);
+        corr_pairwise(&mut out, &yt, &yp, gen_beta(&mut rng));
+        let (yt, yp, _) = gen_regression(&mut rng, n);
+        corr_regression(&mut out, &yt, &yp);
+        let yt = gen_labels_balance(&mut rng, n);
+        let (s, _) = gen_scores(&mut rng, &yt);
+        corr_auc(&mut out, &yt, &s);
+        let (ca, cb, _) = gen_cluster(&mut rng, 200);
+        corr_cluster(&mut out, &ca, &cb);
+    }
+    for _ in 0..(if th { 30 } else { 8 }) {
+        let ka = rng.usize_in(1, 4);
+        let kb = rng.usize_in(1, 4);
+        let pa = palette(&mut rng, ka);
+        let pb = palette(&mut rng, kb);
+        let r: Vec<usize> = (0..ka).map(|_| rng.usize_in(1, 3)).collect();
+        let c: Vec<usize> = (0..kb).map(|_| rng.usize_in(1, 3)).collect();
+        let mut pairs: Vec<(i64, i64)> = vec![];
+        for i in 0..ka {
+            for j in 0..kb {
+                for _ in 0..r[i] * c[j] {
+                    pairs.push((pa[i], pb[j]));
+                }
+            }
+        }
+        rng.shuffle(&mut pairs);
+        let ca: Vec<i64> = pairs.iter().map(|p| p.0).collect();
+        let cb: Vec<i64> = pairs.iter().map(|p| p.1).collect();
+        corr_cluster(&mut out, &ca, &cb);
+    }
 
     // ---- search ----
     let nmax = 200;
